@@ -15,8 +15,10 @@
 import Nuts.Model.DB
 import NutsProofs.Lemmas.Assoc
 import NutsProofs.Props.C22
+import NutsProofs.Lemmas.Hints
 namespace NutsProofs.C19
 open Nuts Nuts.Model Nuts.Model.DB NutsProofs
+open NutsProofs.Hints (WellFormed readAt_of_mem)
 
 /-- **RWMode, StartFileLoadingMode and SyncEnable do not influence the model**: `Open` yields the same
 state (indexes, files, write position — and the stored options themselves). -/
@@ -39,10 +41,6 @@ example : openDB { mode := 1, rw := 0, startRw := 0, sync := false, seg := 64 } 
 
 /-- the API-visible part of a record (the commit marker `status` and the tx id are not exported) -/
 def visible (r : Rec) : Bytes × Bytes × Bytes × Nat × Nat × Nat := (r.bucket, r.key, r.value, r.ts, r.ttl, r.flag)
-
-/-- files as the library writes them: one file per id, one record per offset -/
-def WellFormed (fs : List File) : Prop :=
-  fs.Pairwise (fun a b => a.fid ≠ b.fid) ∧ ∀ f ∈ fs, f.recs.Pairwise (fun a b => a.1 ≠ b.1)
 
 /-- every index entry is a record of the files, at the position its hint names -/
 def HintsPointToRecords (s : State) (fs : List File) : Prop :=
@@ -127,43 +125,6 @@ theorem open_hints (o : Opts) (fs : List File)
       rw [hfiles _ _ _ hkv]
       exact replay_hints _ _ _ _ hkv (allRecs_src _) (h0 _ _ rfl)
 
-/-- reading a record back at its offset, in a well-formed directory -/
-theorem readAt_of_mem (fs : List File) (seg : Nat) (f : File) (pos : Nat) (r : Rec) (hwf : WellFormed fs)
-    (hf : f ∈ fs) (hr : (pos, r) ∈ f.recs) : readAt fs seg f.fid pos = .ok (some r) := by
-  have hget : fileGet? fs f.fid = some f := by
-    unfold fileGet?
-    have hpw := hwf.1
-    induction fs with
-    | nil => cases hf
-    | cons g rest ih =>
-      rw [List.pairwise_cons] at hpw
-      simp only [List.find?_cons]
-      rcases List.mem_cons.mp hf with rfl | hmem
-      · simp
-      · have hne : g.fid ≠ f.fid := hpw.1 f hmem
-        have : (g.fid == f.fid) = false := by simpa using hne
-        rw [this]
-        exact ih ⟨hpw.2, fun x hx => hwf.2 x (by simp [hx])⟩ hmem hpw.2
-  have hfind : f.recs.find? (·.1 == pos) = some (pos, r) := by
-    have hpw := hwf.2 f hf
-    generalize f.recs = l at hr hpw
-    induction l with
-    | nil => cases hr
-    | cons y rest ih =>
-      rw [List.pairwise_cons] at hpw
-      simp only [List.find?_cons]
-      rcases List.mem_cons.mp hr with rfl | hmem
-      · simp
-      · have hne : y.1 ≠ pos := by
-          have := hpw.1 (pos, r) hmem
-          exact this
-        have : (y.1 == pos) = false := by simpa using hne
-        rw [this]
-        exact ih hmem hpw.2
-  unfold readAt
-  rw [hget]
-  simp only [hfind]
-
 /-- **A key-only read returns what key+value mode keeps in memory.** After `Open` of well-formed
 key/value files, in any mode, re-reading an index entry from its hint position (what
 `HintKeyAndRAMIdxMode` does on every read) yields a record with the same bucket, key, value,
@@ -176,5 +137,38 @@ theorem C19_key_only_reads_what_key_value_keeps (o : Opts) (fs : List File)
     ∃ r, readAt (openDB o fs).1.files o.seg i.fid i.pos = .ok (some r) ∧ visible r = visible i.r := by
   obtain ⟨f, r, hf, hfid, hrec, hv⟩ := open_hints o fs hkv b m k i hb hk
   exact ⟨r, by rw [← hfid]; exact readAt_of_mem _ _ f i.pos r hwf hf hrec, hv⟩
+
+open NutsProofs.Reopen NutsProofs.Hints in
+/-- **C19 (index mode, along every history).** Run any history of key/value write transactions and reopens
+from the empty database, in any RAM index mode. In the state it reaches, every key/value read — `Get`,
+`GetAll`, `RangeScan`, `PrefixScan`, `PrefixSearchScan`, for all arguments and clock values — returns what the
+same state returns with the key+value index mode (`withMode0`), up to the status byte no API returns: fetching
+a value through its hint from the data file gives the record that the key+value mode keeps in RAM. Unlike
+`C19_key_only_reads_what_key_value_keeps` this is not only about the state right after `Open`: the invariants
+`Reopen.LogInv` and `Hints.Packed` are carried through every commit, rotation and reopen. -/
+theorem C19_key_only_answers_like_key_value (opt0 : Opts) (ops : List Op) (hok : OpsOk (openDB opt0 []).1 ops) :
+    let s := ops.foldl stepOp (openDB opt0 []).1
+    (∀ b k now, vis (DB.get s b k now) = vis (DB.get (withMode0 s) b k now)) ∧
+    (∀ b now, visL (getAll s b now) = visL (getAll (withMode0 s) b now)) ∧
+    (∀ b st en now, visL (rangeScan s b st en now) = visL (rangeScan (withMode0 s) b st en now)) ∧
+    (∀ b pre off lim now mt, visL (prefixScan s b pre off lim now mt) = visL (prefixScan (withMode0 s) b pre off lim now mt)) := by
+  intro s
+  exact reads_mode_independent s (logInv_ops ops _ (logInv_init opt0) hok)
+    (packed_ops ops _ (logInv_init opt0) (packed_init opt0) hok)
+
+/-- `Put(bucket a, key k, 16 bytes)` with transaction id `id` (60 bytes on disk) -/
+def wPut (id k : Nat) : List Rec := [{ (mkRec [97] [k.toUInt8] (List.replicate 16 120) flagSet dsKV) with txid := id }]
+
+open NutsProofs.Reopen in
+/-- the theorem is about key-only databases that rotate: this history (key-only mode, 100-byte segments, a
+reopen in the middle) meets its hypothesis, leaves three data files, and `Get` fetches the value through the
+hint from the first file -/
+theorem C19_witness_key_only_history :
+    let ops := [Op.commit (wPut 1 1), .commit (wPut 2 2), .reopen { seg := 100, mode := 1 }, .commit (wPut 3 3)]
+    let s := ops.foldl stepOp (openDB { seg := 100, mode := 1 } []).1
+    OpsOk (openDB { seg := 100, mode := 1 } []).1 ops ∧ s.opt.mode = 1 ∧ s.files.map (·.fid) = [0, 1, 2] ∧
+    (DB.get s [97] [1] 5).map (Option.map (·.value)) = .ok (some (List.replicate 16 120)) := by
+  refine ⟨⟨⟨by simp [wPut], 1, ?_⟩, ⟨by simp [wPut], 2, ?_⟩, ⟨by simp [wPut], 3, ?_⟩, trivial⟩, by decide +kernel, by decide +kernel, by decide +kernel⟩
+  all_goals (intro r hr; simp only [wPut, List.mem_singleton] at hr; subst hr; decide +kernel)
 
 end NutsProofs.C19
